@@ -260,9 +260,13 @@ func recvChanField(fn *ssa.Function) *types.Var {
 				}
 			case ssa.CallInstruction:
 				// the receive may sit in an unexported helper of the worker (`go c.run()` → c.drain())
-				if cal := x.Common().StaticCallee(); cal != nil && cal.Pkg == f.Pkg && cal.Object() != nil && !cal.Object().Exported() {
+				if cal := x.Common().StaticCallee(); cal != nil && cal.Object() != nil && !cal.Object().Exported() && (cal.Pkg == f.Pkg || (cal.Origin() != nil && cal.Origin().Pkg != nil && (cal.Origin().Pkg == f.Pkg || (f.Origin() != nil && cal.Origin().Pkg == f.Origin().Pkg)))) {
 					if !isGoStart(in) {
 						visit(cal, d+1)
+						// an iterator (`for v := range q.all()`): the receive sits in the function literal it returns
+						for _, an := range cal.AnonFuncs {
+							visit(an, d+1)
+						}
 					}
 				}
 			}
